@@ -165,6 +165,8 @@ func (g *Gateway) subscriptionHandler(w http.ResponseWriter, r *http.Request) {
 				return
 			}
 
+			setDefaultVariables(request, operation)
+
 			planningContext := &planner.PlanningContext{
 				Request:    request,
 				Operation:  operation,
